@@ -84,6 +84,30 @@ func VerifTakeSplitDiscards() []VerifSplitDiscardEvent {
 	return out
 }
 
+// VerifMicroSpliceEvent describes one "adjacent intersections" repair of
+// fixSelfIntersects: the vertex Spliced was inserted into an output ring between
+// Prev and At (the ring gains the detour Prev -> Spliced -> At).
+type VerifMicroSpliceEvent struct {
+	Prev, Spliced, At Point64
+}
+
+var verifMicro []VerifMicroSpliceEvent
+
+func verifMicroSplice(prev, spliced, at Point64) {
+	verifMu.Lock()
+	verifMicro = append(verifMicro, VerifMicroSpliceEvent{prev, spliced, at})
+	verifMu.Unlock()
+}
+
+// VerifTakeMicroSplices returns and clears the recorded events.
+func VerifTakeMicroSplices() []VerifMicroSpliceEvent {
+	verifMu.Lock()
+	defer verifMu.Unlock()
+	out := verifMicro
+	verifMicro = nil
+	return out
+}
+
 // VerifScratch reports the per-execution scratch state of an engine between
 // calls: lengths of scanlineList, intersectList, outrecList, horzSegList,
 // horzJoinList, whether the active-edge list is empty, and the sticky flags.
